@@ -45,10 +45,13 @@ func (b *bucket) delete(v interface{}, deadline time.Time) bool {
 	idx := sort.Search(len(b.data), func(i int) bool {
 		return !b.data[i].deadline.Before(deadline)
 	})
-	if idx >= len(b.data) {
-		return false
+	// several items may share a deadline: remove the one holding v, not
+	// whichever happens to come first.
+	for ; idx < len(b.data) && b.data[idx].deadline.Equal(deadline); idx++ {
+		if b.data[idx].value == v {
+			b.data = append(b.data[:idx], b.data[idx+1:]...)
+			return true
+		}
 	}
-
-	b.data = append(b.data[:idx], b.data[idx+1:]...)
-	return true
+	return false
 }
